@@ -252,8 +252,12 @@ func runBatch(s *core.Shard, id string, batch []*input, reps, perms int, r *rand
 		if len(in.errText) > 1 {
 			s.Add("error_text_varies", 1)
 		}
-		if s.WantSample() && in.first != nil && in.first.Class == "ok" && in.origin != "corpus" && len(in.first.YAML) < 1200 {
-			s.Sample(map[string]any{"input": in.id, "compose_files": in.c.ComposeFiles, "main_file": in.c.Files[in.c.ComposeFiles[0]],
+		if s.WantSample() && in.first != nil && in.first.Class == "ok" {
+			mf := in.c.Files[in.c.ComposeFiles[0]]
+			if len(mf) > 1500 {
+				mf = mf[:1500] + "\n# ... (truncated in the sample)"
+			}
+			s.Sample(map[string]any{"input": in.id, "compose_files": in.c.ComposeFiles, "main_file": mf,
 				"loads_compared": in.cmps, "yaml_digest": digest(in.first.YAML), "json_digest": digest(in.first.JSON), "verdict": "all loads agreed"})
 		}
 	}
@@ -297,7 +301,7 @@ func variantFiles(in *input, res *result, variant *ld.Case) *variantInfo {
 }
 
 func report(s *core.Shard, in *input, d discrepancy, mode string, v *variantInfo) {
-	attrs := map[string]string{"kind": d.Kind, "mode": mode, "field": d.Field}
+	attrs := map[string]string{"kind": d.Kind, "mode": mode, "field": strings.TrimPrefix(d.Field, "Disabled")}
 	if d.Format != "" {
 		attrs["format"] = d.Format
 	}
